@@ -150,19 +150,36 @@ Proof. exact p_guard_satisfiable. Qed.
 
 (* ===================================================================== subscriber.Manager *)
 
-(* TerminateSession (administrative or RADIUS disconnect, idle and session timeout go through it):
-   address released once, MAC and IP indexes cleared, exactly one terminate event *)
+(* TerminateSession (administrative or RADIUS disconnect, idle and session timeout go through it), with
+   any caller context (live, cancelled, deadline expired) and a working allocator: address released once,
+   MAC and IP indexes cleared, exactly one terminate event *)
 Theorem C16_submgr_terminate : forall c s n x,
   aget n (ssn s) = Some x -> ((ss_ip x =? 0) || smem (ss_ip x) (salloc s)) = true ->
-  let r := sstep c s (STerminate n) in
+  forall ctx, let r := sstep c s (STerminate n ctx false) in
   sheld (fst (fst r)) (ss_mac x) (ss_ip x) = [] /\
   snd (fst r) = (0, (if ss_ip x =? 0 then [] else [(5, ss_ip x)]) ++ [(6, n)]) /\
   aget n (ssn (fst (fst r))) = None.
 Proof. exact s_terminate_releases. Qed.
 Print Assumptions C16_submgr_terminate.
 
-Theorem C16_submgr_terminate_twice : forall c s n,
-  let s1 := fst (fst (sstep c s (STerminate n))) in sstep c s1 (STerminate n) = (s1, (1, []), []).
+(* no termination attempt on a session in the table fails or leaves it behind (nothing can get stuck) *)
+Theorem C16_submgr_terminate_never_stuck : forall c s n ctx rf x,
+  aget n (ssn s) = Some x ->
+  let r := sstep c s (STerminate n ctx rf) in
+  fst (snd (fst r)) = 0 /\ aget n (ssn (fst (fst r))) = None /\ In (6, n) (snd (snd (fst r))).
+Proof. exact s_terminate_never_stuck. Qed.
+Print Assumptions C16_submgr_terminate_never_stuck.
+
+(* ... but an allocator release error is only logged: the session goes, the address stays allocated (refuted) *)
+Theorem C16_submgr_release_error_refuted :
+  exists c s n x, aget n (ssn s) = Some x /\
+    aget n (ssn (fst (fst (sstep c s (STerminate n 0 true))))) = None /\
+    sheld (fst (fst (sstep c s (STerminate n 0 true)))) (ss_mac x) (ss_ip x) <> [].
+Proof. exact s_release_error_refuted. Qed.
+Print Assumptions C16_submgr_release_error_refuted.
+
+Theorem C16_submgr_terminate_twice : forall c s n ctx1 ctx2 f1 f2,
+  let s1 := fst (fst (sstep c s (STerminate n ctx1 f1))) in sstep c s1 (STerminate n ctx2 f2) = (s1, (1, []), []).
 Proof. exact s_terminate_twice. Qed.
 Print Assumptions C16_submgr_terminate_twice.
 
